@@ -99,7 +99,13 @@ def fresh(sd=0):
     CF = pd.DataFrame({'_id': [0, 1, 2], 'l_id': [1.0, 2.0, 3.0], 'r_id': [7.0, 9.0, 9.0]})
     DN = pd.DataFrame({'id': [1, 2], 'm': [np.nan, np.nan], 'z': pd.Series([], dtype='float64').reindex([0, 1])})
     DE = pd.DataFrame({'id': pd.Series([], dtype='int64'), 'm': pd.Series([], dtype='float64')})
-    return dict(A=A, B=B, A2=A2, B2=B2, C=C, C2=C2, S=S, BN=BN, BM=BM, BE=BE, CF=CF, DN=DN, DE=DE,
+    fts = WhitespaceTokenizer(return_set=True)
+    shared_filters = dict(
+        F_size=ssj.SizeFilter(fts, 'JACCARD', 0.4, allow_missing=True),
+        F_prefix=ssj.PrefixFilter(fts, 'JACCARD', 0.4, allow_empty=False, allow_missing=True),
+        F_position=ssj.PositionFilter(fts, 'COSINE', 0.4, allow_missing=True),
+        F_overlap=ssj.OverlapFilter(fts, 2, '>=', allow_missing=True))
+    return dict(shared_filters, A=A, B=B, A2=A2, B2=B2, C=C, C2=C2, S=S, BN=BN, BM=BM, BE=BE, CF=CF, DN=DN, DE=DE,
                 ws_set=WhitespaceTokenizer(return_set=True), ws_bag=WhitespaceTokenizer(return_set=False),
                 qg3_set=QgramTokenizer(qval=3, return_set=True), qg2_bag=QgramTokenizer(qval=2, return_set=False))
 
@@ -110,7 +116,9 @@ def tok_fp(t):
 
 def state(O):
     return (tuple((k, frame_fingerprint(O[k])) for k in ('A', 'B', 'A2', 'B2', 'C', 'C2', 'S', 'BN', 'BM', 'BE', 'CF', 'DN', 'DE')),
-            tuple((k, tok_fp(O[k])) for k in TOKS),
+            tuple((k, tok_fp(O[k])) for k in TOKS) +
+            tuple((k, tuple(sorted((a, repr(v)) for a, v in vars(O[k]).items() if a != 'tokenizer')))
+                  for k in sorted(O) if k.startswith('F_')),
             tuple(tok_fp(t) for t in default_tokenizers()),
             lib_globals_fingerprint())
 
@@ -234,6 +242,15 @@ def build_alphabet(reduced=False):
                         (lambda tn, op, t: lambda O: ssj.edit_distance_join(
                             O['A'], O['B'], 'id', 'id', 's', 's', t, op, False, tokenizer=O[tn],
                             show_progress=False))(tn, op, t))
+    # filter objects created once (allow_missing=True) and shared by the calls of a history
+    for fk in ('F_size', 'F_prefix', 'F_position', 'F_overlap'):
+        add('%s.filter_tables(A,B) [shared filter object]' % fk,
+            (lambda fk: lambda O: O[fk].filter_tables(O['A'], O['B'], 'id', 'id', 's', 's', show_progress=False))(fk))
+        add('%s.filter_candset(C,n_jobs=2) [shared filter object]' % fk,
+            (lambda fk: lambda O: O[fk].filter_candset(O['C'], 'l_id', 'r_id', O['A'], O['B'], 'id', 'id', 's', 's',
+                                                       n_jobs=2, show_progress=False))(fk))
+        add('%s.filter_pair(missing) [shared filter object]' % fk,
+            (lambda fk: lambda O: O[fk].filter_pair(None, 'a b'))(fk))
     # pair-level token order: a pair whose verdict depends on the order, and a call that would bump the
     # frequencies of its non-shared tokens if they were remembered between calls
     for Fn in ('PrefixFilter', 'PositionFilter', 'SuffixFilter'):
@@ -384,6 +401,8 @@ def w_bfs(job):
 def probe_call(name):
     """Calls whose result is sensitive to anything an earlier call could leave behind (tokenizer mode, token
     order state, modified tables): used as second call of the quick tier's depth-2 histories."""
+    if 'shared filter object' in name:
+        return True
     if any(k in name for k in ('filter_tables', 'filter_pair', 'filter_candset', 'apply_matcher(', 'order-sensitive',
                                'profile_table', 'column_to_str', 'series_to_str')):
         return 'rejected' not in name
